@@ -302,7 +302,7 @@ func C16() int {
 			c.Violation("window-altered|library", fmt.Sprintf("GetStartAndEndDates() with (100,200) = (%v, %v)", recs[1]["start"], recs[1]["end"]), nil)
 		}
 	}
-	c.Set("race_reports", s.RaceReports())
+	raceVerdict(s, c)
 	if c.Counter("cli_runs") < len(cfgs) || c.Counter("requests_logged") < 100 {
 		c.Inconclusive("too few Atlas runs / requests")
 	}
